@@ -393,7 +393,7 @@ def event_time_harness(w, size, slide, iters, max_len, base=None):
 
 def event_time_tasks(tier, role):
     ts = []
-    grid = [(2, 2), (3, 3), (2, 1), (3, 2), (4, 2)] if tier == 'quick' else \
+    grid = [(2, 2), (2, 1), (3, 2), (4, 2)] if tier == 'quick' else \
         [(n, s) for n in (1, 2, 3, 4, 5) for s in range(1, n + 1)]
     bases = [-3, 1000] if tier == 'quick' else [-1000, -3, 1000, None]
     for n, s in grid:
